@@ -91,7 +91,7 @@ every argument vector, word size, stack size and build mode.  (`Core.coreProg` i
 every run to be identical to the real compiler's output, and `Core.exec` to agree with the
 reference machine.) -/
 theorem core_try_undo_correct (cf : Core.Config) (args : List Int) (pr : Core.CProg) (hw : 2 ≤ cf.w)
-    (hB : Core.progLen cf.checked pr + Gen.stdlibLength < 256 ^ cf.w) (hSE : Core.F0 cf args < 256 ^ cf.w)
+    (hB : Core.progLen cf.checked pr + Gen.stdlibLength < 256 ^ cf.w) (hSE : Core.F0 cf args + Core.regsLen cf.w pr < 256 ^ cf.w)
     (hwf : Core.wfProg pr = true) (hlen : args.length = pr.params.length)
     (fuel : Nat) (env' : Core.Env) (tr : List Ev) (res : Core.Res)
     (hex : Core.srcRun cf fuel args pr = some (env', tr, res))
@@ -116,5 +116,70 @@ example :
     (Core.srcRun ⟨2, 100, true⟩ 12 [] pr).map (fun r => (r.2.1, r.2.2)) =
       some ([Ev.out 85, Ev.out 89], .returned) := by
   refine ⟨by decide, by decide +kernel⟩
+
+/-! ## try/stop in compiled code: proved for the core
+
+`try { … } stop { … }` keeps what the body did up to the point of defeat and continues in the handler
+from there.  In the source semantics: -/
+
+/-- a try body that is defeated keeps its output and its assignments up to the defeat call, and the
+handler goes on from that state (`%ap` is the frame slot in which the compiler saves `ap`) -/
+theorem stop_source_law (M n w f room o : Nat) (fns : List Core.FDecl) (env env1 : Core.Env) (tr1 : List Ev) (body handler k : Core.S)
+    (hb : Core.exec M n fns w f room (o + w) (Core.upd env "%ap" (5 * w)) body = some (env1, tr1, .defeat))
+    (hap : env1 "%ap" = 5 * w) :
+    Core.exec M n fns w (f + 1) room o env (.tryStop body handler k) =
+      (do let (env2, tr2, r2) ← Core.exec M n fns w f room o env1 handler
+          if r2 = .norm then
+            let (env3, tr3, r3) ← Core.exec M n fns w f room o env2 k
+            pure (env3, tr1 ++ tr2 ++ tr3, r3)
+          else pure (env2, tr1 ++ tr2, r2)) := by
+  simp [Core.exec, hb, hap]
+
+/-- a try body that completes is committed, and the handler is skipped -/
+theorem stop_ok_source_law (M n w f room o : Nat) (fns : List Core.FDecl) (env env1 : Core.Env) (tr1 : List Ev) (body handler k : Core.S)
+    (hb : Core.exec M n fns w f room (o + w) (Core.upd env "%ap" (5 * w)) body = some (env1, tr1, .norm)) :
+    Core.exec M n fns w (f + 1) room o env (.tryStop body handler k) =
+      (do let (env3, tr3, r3) ← Core.exec M n fns w f room o env1 k
+          pure (env3, tr1 ++ tr3, r3)) := by
+  simp [Core.exec, hb]
+
+/-- **C02 (try/stop) on the core**: the emitted code — `ap` and `fp` saved, the handler address stored
+in the word `defeat`, one Turing jump that asks whether the body would halt with `defeat = halt`, and
+`j [defeat]; halt` for every `!is_defeat()` inside the body — realises exactly that semantics on the
+committed timeline: when the body is defeated its effects up to the defeat call stay and the handler
+runs in the restored frame; when it is not, the handler is skipped.  For every core program with
+`try/stop` blocks (any nesting of blocks, conditionals, loops and calls inside the body and around
+the block), every argument vector, word size, stack size and build mode.  This is `core_correct` for
+programs with `hasStop`; the case of the block itself is `Core.tryStop_ok`. -/
+theorem core_try_stop_correct (cf : Core.Config) (args : List Int) (pr : Core.CProg) (hw : 2 ≤ cf.w)
+    (_hstop : Core.hasStop pr.body = true)
+    (hB : Core.progLen cf.checked pr + Gen.stdlibLength < 256 ^ cf.w) (hSE : Core.F0 cf args + 2 * cf.w < 256 ^ cf.w)
+    (hwf : Core.wfProg pr = true) (hlen : args.length = pr.params.length)
+    (fuel : Nat) (env' : Core.Env) (tr : List Ev) (res : Core.Res)
+    (hex : Core.srcRun cf fuel args pr = some (env', tr, res))
+    (hck : res = .div0 ∨ res = .ovf → cf.checked = true)
+    (hpkF : res = .ovf → ∀ fd ∈ pr.funs, Core.pkS cf.w (Core.entryOff cf.w fd.params) fd.body < 256 ^ cf.w)
+    (hroom : Core.pkS cf.w (Core.entryOff cf.w pr.params) pr.body ≤ Core.roomOf cf args) :
+    ∃ mEnd, Exec (Sphinx.sphinx (Core.coreProg cf pr)) (Core.coreInit cf args pr) (tr ++ Core.terminalEvs res)
+        ⟨Sphinx.tntPc (Core.progLen cf.checked pr), mEnd⟩ ∧
+      ¬ Halts (Sphinx.sphinx (Core.coreProg cf pr)) (Core.coreInit cf args pr) :=
+  Core.core_correct cf args pr hw hB (by simp only [Core.regsLen, _hstop, if_true]; exact hSE) hwf hlen fuel env' tr res hex hck hpkF hroom
+
+/-- non-vacuity: the body prints `A`, sets `x := 9`, and is defeated when `x > 5`: the committed output
+is `A` (kept), `S` (handler), `N` (the assignment is kept: `x` is 9, not 5); with `x := 3` instead the
+body completes: `A`, then `N`… -/
+example :
+    let pr (v : Int) : Core.CProg :=
+      { params := [], funs := [],
+        body := .decl "x" (.lit 5)
+          (.tryStop (.putc 65 (.assign "x" (.lit v) (.ifb (.cmp .gt (.var "x") (.lit 5)) (.defeat .nil) .nil .nil)))
+                    (.putc 83 .nil)
+            (.ifb (.cmp .eq (.var "x") (.lit 5)) (.putc 89 .nil) (.putc 78 .nil) .ret)) }
+    Core.wfProg (pr 9) = true ∧ Core.hasStop (pr 9).body = true ∧
+    (Core.srcRun ⟨2, 100, true⟩ 12 [] (pr 9)).map (fun r => (r.2.1, r.2.2)) =
+      some ([Ev.out 65, Ev.out 83, Ev.out 78], .returned) ∧
+    (Core.srcRun ⟨2, 100, true⟩ 12 [] (pr 5)).map (fun r => (r.2.1, r.2.2)) =
+      some ([Ev.out 65, Ev.out 89], .returned) := by
+  refine ⟨by decide, by decide, by decide +kernel, by decide +kernel⟩
 
 end HidVerif.Props.C02
